@@ -355,6 +355,7 @@ class MQTTProtocol(MQTTBaseProtocol):
             self._purgeSession(MQTTSessionCleared())
         else:
             self._syncSession()
+        self._refillPublish(dup=False)  # room may have been made for held-back messages
         if self.onMqttConnectionMade:
             self.onMqttConnectionMade()
 
